@@ -122,6 +122,47 @@ def pixelFt (sinc : K → K) (fx fy width_x width_y : K) : K := sinc (fx * width
 def olpfFt (cos : K → K) (fx fy width_x width_y : K) : K :=
   cos ((Num.ofInt 2 * width_x) * fx) * cos ((Num.ofInt 2 * width_y) * fy)
 
+/-- `objects.slit_ft(width_x, width_y, fx, fy)`; `hasx`/`hasy` = "width_x is not None" / "width_y is not None"
+(crossed slits: the SUM of the two sinc's; one slit: its sinc) -/
+def slitFt (sinc : K → K) (fx fy width_x width_y : K) (hasx hasy : Bool) : K :=
+  if hasx && hasy then sinc (fx * width_x) + sinc (fy * width_y)
+  else if hasx && !hasy then sinc (fx * width_x) else sinc (fy * width_y)
+
+/-- `objects.pinhole_ft(radius, fr) = jinc(fr · (radius · 2π))` -/
+def pinholeFt (jinc : K → K) (pi fr radius : K) : K := jinc (fr * ((radius * Num.ofInt 2) * pi))
+
+/-- `otf._difflim_mtf_core(ν) = (2/π)·(arccos ν − ν·sqrt(1 − ν²))` -/
+def difflimCore (arccos sqrt : K → K) (pi nu : K) : K :=
+  (Num.ofInt 2 / pi) * (arccos nu - nu * sqrt (Num.ofInt 1 - nu * nu))
+
+/-- the normalised frequency of `otf.diffraction_limited_mtf(fno, wavelength, frequencies)`: `|f / extinction|` with
+`extinction = 1 / (wavelength/1000 · fno)` [cy/mm], values above 1 clamped to 1 -/
+def difflimNu [LT K] [DecidableLT K] (abs : K → K) (f wavelength fno : K) : K :=
+  let extinction := Num.ofInt 1 / (wavelength / Num.ofInt 1000 * fno)
+  let nu := abs (f / extinction)
+  if nu > Num.ofInt 1 then Num.ofInt 1 else nu
+
+/-- `diffraction_limited_mtf(fno, wavelength, frequencies)` at one frequency -/
+def difflimMtf [LT K] [DecidableLT K] (arccos sqrt abs : K → K) (pi f wavelength fno : K) : K :=
+  difflimCore arccos sqrt pi (difflimNu abs f wavelength fno)
+
+/-- `otf.longexposure_otf(nu, Cn, z, f, lambdabar, h_z_by_r) = exp(−2π² h Cn² · z f^{5/3}/λ³ · ν^{5/3})` after the unit
+conversions `ν/10³`, `f/10³`, `λ/10⁶`; `rpow` is the real power, `5/3` its exponent -/
+def longExposureOtf (exp : K → K) (rpow : K → K → K) (pi nu Cn z f lambdabar h : K) : K :=
+  let nu' := nu / Num.ofInt 1000
+  let f' := f / Num.ofInt 1000
+  let lam := lambdabar / Num.ofInt 1000000
+  let power := Num.ofInt 5 / Num.ofInt 3
+  let const1 := -(pi * pi) * Num.ofInt 2 * h * (Cn * Cn)
+  let const2 := z * rpow f' power / (lam * lam * lam)
+  exp (const1 * const2 * rpow nu' power)
+
+/-- `otf.komogorov(r, r0) = 6.88 (r/r0)^{5/3}` -/
+def komogorov (rpow : K → K → K) (r r0 : K) : K := Num.ofFrac 172 25 * rpow (r / r0) (Num.ofInt 5 / Num.ofInt 3)
+
+/-- `otf.estimate_Cn(P, T, Ct) = (79 P / T²) Ct² 10⁻¹²` -/
+def estimateCn (P T Ct : K) : K := (Num.ofInt 79 * P / (T * T)) * (Ct * Ct) * Num.ofFrac 1 1000000000000
+
 end tfs
 
 /-! ## materialised arrays and the O(N²) DFT instance of `FOps` (driver) -/
